@@ -1,7 +1,9 @@
 import CogentModel.Json
 import CogentModel.Model.PruneSites
+import CogentModel.Model.PruneFixed
+import Driver.PruneCmds
 /-! JSON commands for the second part of C02 (`Model/PruneSites.lean`): the site-class HMM and several loci. -/
-open CogentModel CogentModel.Prune CogentModel.PruneSites
+open CogentModel CogentModel.Prune CogentModel.PruneSites CogentModel.PruneFixed
 
 namespace C02Sites
 
@@ -9,8 +11,10 @@ def natList (j : J) : Except String (List Nat) := j.toListOf J.toNat
 
 /-- `hmm`: `bprobs` (bin probabilities), `switch`, `lhs[b][u]` (likelihood of unique column `u` under bin `b`),
 `index` (column → unique column).  Returns
-* `code`  — `siteHmm` (PatchSiteDistribution + SiteClassTransitionMatrix + the loop of log_dot_reduce as written),
-* `fixed` — the same loop with the matrix acting from the right (`transpose`),
+* `code`  — `siteHmm` (PatchSiteDistribution + SiteClassTransitionMatrix + the loop of log_dot_reduce as written:
+  `dot(state_probs, switch_probs)`),
+* `old`   — `siteHmmOld`: the loop as it was before fix 6668db777 (`dot(switch_probs, state_probs)`), so that a regression
+  to that side can be named,
 * `spec`  — `bruteHmm`: the sum over all `2^n` patch paths (only when `brute` is true),
 * `pprobs`, `cond`, `matrix`, `emis` — the intermediate quantities (compared with the real object's attributes) -/
 def cmdHmm (j : J) : Except String J := do
@@ -23,14 +27,14 @@ def cmdHmm (j : J) : Except String J := do
     | _ => false
   let pp := patchProbs bprobs
   let M := switchMatrix switch pp
-  let npatch := alloc bprobs.length (bprobs.length - 1) + 1
+  let npatch := npatch bprobs.length
   let emis : List (List Rat) := index.map fun u =>
     (List.range npatch).map (patchEmission bprobs fun b => (lhs.getD b []).getD u 0)
   let es : List (Nat → Rat) := emis.map fun v => fun a => v.getD a 0
   let code := siteHmm bprobs switch lhs index
-  let fixed := forward npatch (transpose M) pp es
+  let old := siteHmmOld bprobs switch lhs index
   let spec := if brute then J.ofRat (bruteHmm npatch pp M es) else J.null
-  return J.obj [("code", J.ofRat code), ("fixed", J.ofRat fixed), ("spec", spec),
+  return J.obj [("code", J.ofRat code), ("old", J.ofRat old), ("spec", spec),
                 ("npaths", J.ofNat (if brute then (paths npatch es.length).length else 0)),
                 ("pprobs", J.arr ((List.range npatch).map fun a => J.ofRat (pp a))),
                 ("alloc", J.arr ((List.range bprobs.length).map fun b => J.ofNat (alloc bprobs.length b))),
@@ -47,10 +51,41 @@ def cmdLoci (j : J) : Except String J := do
   return J.obj [("total", J.ofInt total), ("plain", J.ofInt plain),
                 ("per_locus", J.arr (loci.map fun cols => J.ofInt (lnLCompressed g cols)))]
 
+/-- `lfpin`: the request of `lf` plus `path` (child positions from the root to an internal node).  Returns, for every
+state `s < m`, the likelihood of every unique column with `fixed_motif = s` on that node (`lhFixed`,
+PartialLikelihoodProductDefnFixedMotif; with several bins the bprobs-weighted sum of the per-bin values, as `lhColumn`),
+and whether the path ends at an internal node -/
+def cmdLfPin (j : J) : Except String J := do
+  let m ← (← j.get "m").toNat
+  let symbols := (← (← j.get "symbols").toListOf PruneCmds.ratVec).toArray
+  let cols ← (← j.get "cols").toListOf natList
+  let bprobs ← (← j.get "bprobs").toListOf J.toRat
+  let path ← natList (← j.get "path")
+  let binsJ ← (← j.get "bins").toList
+  let bins ← binsJ.mapM fun b => do
+    let P := (← (← b.get "P").toListOf PruneCmds.ratMat).toArray
+    let pi ← PruneCmds.ratVec (← b.get "pi")
+    let t ← PruneCmds.parseTree P (← j.get "tree")
+    return (PruneCmds.vecFn pi, t)
+  let ix := indexed cols
+  let profOf (col : List Nat) : Nat → Nat → Rat := fun a => PruneCmds.vecFn (symbols.getD (col.getD a 0) #[])
+  let fixedCol (s : Nat) (col : List Nat) : Rat :=
+    match bins with
+    | [(pi, t)] => lhFixed m pi (profOf col) s path t
+    | _ => weightedSum bprobs (bins.map fun (pi, t) => lhFixed m pi (profOf col) s path t)
+  let internal := match bins with
+    | (_, t) :: _ => isInternalAt path t
+    | [] => false
+  return J.obj [("uniq", J.arr (ix.uniq.map fun c => J.arr (c.map J.ofNat))),
+                ("index", J.arr (ix.index.map J.ofNat)),
+                ("internal", J.bool internal),
+                ("fixed", J.arr ((List.range m).map fun s => J.arr (ix.uniq.map fun col => J.ofRat (fixedCol s col))))]
+
 def handle (cmd : String) (j : J) : Option (Except String J) :=
   match cmd with
   | "hmm" => some (cmdHmm j)
   | "loci" => some (cmdLoci j)
+  | "lfpin" => some (cmdLfPin j)
   | _ => none
 
 end C02Sites
